@@ -8,7 +8,8 @@ from 0) creates the fragments `grp … k` — SSN `k mod 2^16` (DATA), MID `k mo
 (I-DATA), FSN `i`, `B` on the first, `E` on the last, lengths `fragSizes`. Rejected writes (no such stream, too large,
 empty, not established — the last one rolls the counters back) consume no sequence number.
 -/
-namespace SenderProofs
+namespace SenderTsn
+open SenderProofs
 open Gen Sender
 open NetSys (Write accepts)
 
@@ -234,13 +235,13 @@ theorem step_cinv (il : Bool) (ws : List Write) (s : St) (op : Op) (h : CInv il 
     exact h.of_sk (fun si => by rw [gather_str])
   | sack cum arwnd gaps marks =>
     simp only [accBy, List.append_nil, writtenBy, and_true, step]
-    exact h.of_sk (sack_quiet s cum arwnd gaps marks).q.str
+    exact h.of_sk (sack_still s cum arwnd gaps marks).q.str
   | t3 =>
     simp only [accBy, List.append_nil, writtenBy, and_true, step]
-    exact h.of_sk (t3_quiet s).q.str
+    exact h.of_sk (t3_still s).q.str
   | tick ms n marks =>
     simp only [accBy, List.append_nil, writtenBy, and_true, step]
-    exact h.of_sk (tick_quiet s ms n marks).q.str
+    exact h.of_sk (tick_still s ms n marks).q.str
 
 theorem step_cfg_all (s : St) (op : Op) : (step s op).cfg = s.cfg := by
   cases op with
@@ -249,9 +250,9 @@ theorem step_cfg_all (s : St) (op : Op) : (step s op).cfg = s.cfg := by
   | setEstablished b => rfl
   | write si ppi len => exact (write_myNextTSN s si ppi len).2
   | gather orc sel => exact gather_cfg s orc sel
-  | sack cum arwnd gaps marks => exact (sack_quiet s cum arwnd gaps marks).q.cfg
-  | t3 => exact (t3_quiet s).q.cfg
-  | tick ms n marks => exact (tick_quiet s ms n marks).q.cfg
+  | sack cum arwnd gaps marks => exact (sack_still s cum arwnd gaps marks).q.cfg
+  | t3 => exact (t3_still s).q.cfg
+  | tick ms n marks => exact (tick_still s ms n marks).q.cfg
 
 theorem run_cfg_all (s : St) (ops : List Op) : (run s ops).cfg = s.cfg := by
   induction ops generalizing s with
@@ -316,4 +317,4 @@ theorem grp_get (il : Bool) (mp len k : Nat) (a : Write) (i : Nat) (w : Chunk) (
   obtain ⟨g1, g2, g3, g4, g5, g6, g7, g8, g9, g10⟩ := mkChunks_get _ _ _ _ _ _ _ _ _ i w h
   exact ⟨g1, g2, g3, g4, g5, g6, by simpa using g7, by simpa using g8, g9, g10⟩
 
-end SenderProofs
+end SenderTsn
